@@ -69,8 +69,14 @@ def instances(tier, seed):
         b = [0, 1] + list(range(n, 2 * n - 2))
         edges = sorted({tuple(sorted(p)) for c in (a, b) for p in itertools.combinations(c, 2)})
         yield {"kind": "edges", "edges": edges, "m0s": [n] + ([n - 1] if n <= 7 else []), "labels": None}
+    # vertex labels 1000, 1007, ... (every occurrence of a label in the edge list is a separate int object)
+    for n in range(3, 6):
+        masks = list(enumr.labelled_graph_masks(n, no_isolated=True))
+        for i in range(0, len(masks), 96):
+            yield {"kind": "masks", "n": n, "masks": masks[i:i + 96], "m0s": list(range(2, n + 1)),
+                   "labels": enumr.relabelings(n, seed, kinds=("large",))[0]}
     for edges in TRIANGLE_COMPLEXES:
-        for lab in enumr.relabelings(1 + max(v for e in edges for v in e), seed, kinds=("identity", "reversed")):
+        for lab in enumr.relabelings(1 + max(v for e in edges for v in e), seed, kinds=("identity", "reversed", "large")):
             yield {"kind": "edges", "edges": edges, "m0s": [2, 3, 4], "labels": lab}
     for n in range(2, 7):
         masks = list(enumr.labelled_graph_masks(n, no_isolated=True))
@@ -206,7 +212,7 @@ def run_instance(inst, tier):
     lab = inst.get("labels")
     for edges in graphs:
         if lab:
-            edges = [(lab[a], lab[b]) for a, b in edges]
+            edges = enumr.fresh_edges([(lab[a], lab[b]) for a, b in edges])
         for m0 in inst["m0s"]:
             leaves = check_graph(res, edges, m0, {"edges": edges, "m0": m0})
             if leaves > 1 and len(res.samples) < 2:
